@@ -725,20 +725,21 @@ def doc_meaning(n, b):
 
 def oracle_bounds(n, b, got, where):
   """got = ('A', table, ...) | ('V',) | ('O',)"""
+  shown = core.jsonable(b)
   if is_seq(b) and (not numeric(b) or len(b) == 0 or any(is_seq(e) and len(e) == 0 for e in b)):
     return None                      # None entries / empty sequences: outside the documented forms and the property's lengths 1..5, no verdict
   t = doc_meaning(n, b)
   good = t is not None and all(lo <= hi for lo, hi in t)
   if good:
     if got[0] != 'A':
-      return '%s rejects the well-formed bounds %r on a length-%d device (%s)' % (where, b, n, got[0])
+      return '%s rejects the well-formed bounds %r on a length-%d device (%s)' % (where, shown, n, got[0])
     if got[1] != [[F(lo), F(hi)] for lo, hi in t]:
-      return '%s normalises bounds %r on a length-%d device to %r, documented meaning %r' % (where, b, n, core.jsonable(got[1]), t)
+      return '%s normalises bounds %r on a length-%d device to %r, documented meaning %r' % (where, shown, n, core.jsonable(got[1]), core.jsonable(t))
     return None
   if got[0] == 'A':
-    return '%s accepts the ill-formed bounds %r on a length-%d device as %r' % (where, b, n, core.jsonable(got[1]))
+    return '%s accepts the ill-formed bounds %r on a length-%d device as %r' % (where, shown, n, core.jsonable(got[1]))
   if got[0] == 'O':
-    return '%s raises something other than ValueError for the ill-formed bounds %r on a length-%d device' % (where, b, n)
+    return '%s raises something other than ValueError for the ill-formed bounds %r on a length-%d device' % (where, shown, n)
   return None
 
 
